@@ -63,6 +63,11 @@ fn play(src: &str, ops: &[String]) -> serde_json::Value {
         } else if let Some(n) = op.strip_prefix("b:") {
             let (name, mode) = n.split_once(':').unwrap();
             if let Err(e) = story.bind_external_function(name, Rc::new(RefCell::new(Ext { log: calls.clone() })), mode == "safe") { result = format!("err:{e}"); }
+        } else if let Some(path) = op.strip_prefix("sv:") {
+            match story.save_state() { Ok(j) => { std::fs::write(path, j).unwrap(); } Err(e) => { result = format!("err:{e}"); } }
+        } else if let Some(path) = op.strip_prefix("ld:") {
+            let j = std::fs::read_to_string(path).unwrap();
+            if let Err(e) = story.load_state(&j) { result = format!("err:{e}"); } else { result = "ok".into(); }
         } else if let Some(n) = op.strip_prefix("rf:") {
             if let Err(e) = story.remove_flow(n) { result = format!("err:{e}"); }
         } else if let Some(n) = op.strip_prefix("sf:") {
